@@ -2,8 +2,10 @@ package elkcore
 
 import (
 	"bytes"
+	"crypto/sha1"
 	"encoding/json"
 	"fmt"
+	"os"
 	"path/filepath"
 	"strings"
 	"sync"
@@ -39,14 +41,46 @@ func (o *Obs) Lines() []string {
 }
 
 type ModelRun struct {
-	Obs map[int]*Obs
-	TLC *tlc.Result
+	Obs     map[int]*Obs
+	TLC     *tlc.Result
+	counted bool
 }
 
 // Predict runs TLC on spec/ElkCore with the given programs (progs.ndjson) and returns the predicted
 // observation of each. The invariants of cfg are checked on every state of every execution.
 // The programs must already have been emitted (line numbers assigned).
+var (
+	predictMu    sync.Mutex
+	predictCache = map[[20]byte]*ModelRun{}
+)
+
+// Predict memoises by (programs, cfg, bounds, deviations): properties that run the same programs
+// under several runtime configurations ask TLC once.
 func Predict(c *core.Ctx, progs []M, cfg string, maxSteps int, timeout time.Duration, deviations ...string) (*ModelRun, error) {
+	h := sha1.New()
+	fmt.Fprintf(h, "%s|%d|%v|", cfg, maxSteps, deviations)
+	for _, p := range progs {
+		b, _ := json.Marshal(p)
+		h.Write(b)
+	}
+	var key [20]byte
+	copy(key[:], h.Sum(nil))
+	predictMu.Lock()
+	if mr, ok := predictCache[key]; ok {
+		predictMu.Unlock()
+		return mr, nil
+	}
+	predictMu.Unlock()
+	mr, err := predictUncached(c, progs, cfg, maxSteps, timeout, deviations...)
+	if err == nil {
+		predictMu.Lock()
+		predictCache[key] = mr
+		predictMu.Unlock()
+	}
+	return mr, err
+}
+
+func predictUncached(c *core.Ctx, progs []M, cfg string, maxSteps int, timeout time.Duration, deviations ...string) (*ModelRun, error) {
 	// TLC holds the whole program file in memory as TLA+ values: shard large instances
 	const shard = 2500
 	par := 4
@@ -140,7 +174,9 @@ func predictShard(c *core.Ctx, progs []M, cfg string, maxSteps int, timeout time
 		return nil, perr
 	}
 	if !res.OK {
-		return mr, core.Inconclusivef("TLC on ElkCore (%s): verdict=%s %s\n%s", cfg, res.Verdict, res.What, tailStr(res.Output, 3000))
+		dbg := filepath.Join(os.TempDir(), "elkcore-failed-progs.ndjson")
+		os.WriteFile(dbg, nd.Bytes(), 0o644)
+		return mr, core.Inconclusivef("TLC on ElkCore (%s): verdict=%s %s (programs kept in %s)\n%s", cfg, res.Verdict, res.What, dbg, tailStr(res.Output, 3000))
 	}
 	if len(mr.Obs) != len(progs) {
 		return mr, core.Inconclusivef("ElkCore produced %d observations for %d programs", len(mr.Obs), len(progs))
